@@ -20,7 +20,7 @@ from .core import Relation, err_kind
 
 PROP = "C11"
 CLAIMED = False
-COQ_MODULES = ["C11_Check", "C11_Proofs", "C11_Proofs2"]
+COQ_MODULES = ["C11_Check", "C11_Proofs", "C11_Proofs2", "C11_Proofs3", "C11_Proofs4", "C11_Proofs5", "C11_Proofs6", "C11_Proofs7", "C11_Proofs8"]
 PROPERTY_MODULE = "C11_Property"
 ALLOWED_AXIOMS = []
 RULE = (
@@ -315,7 +315,7 @@ class Index(Relation):
     coq_case_type = "icase"
     coq_model = "model_index"
     coq_imports = ["C11_Model"]
-    budget = {"quick": 220, "thorough": 4000}
+    budget = {"quick": 700, "thorough": 8000}
     max_cases_per_shard = 60
     anchors = [
         ("haptools/index.py", "index_haps"),
@@ -393,8 +393,8 @@ class Index(Relation):
         pin = T.scan_lines(inp["lines"])
         if "obs" not in obs:
             T.freeze()
-            return (f"(mki {L.b(inp['sort'])} {L.b(not inp['gz'])} {T.lines(pin)} (Err {obs.get('kind', 99)}) "
-                    f"None (Err 0))")
+            # the run could not be observed (harness trouble, crash, timeout): E_Unobserved
+            return f"(mki {L.b(inp['sort'])} {L.b(not inp['gz'])} {T.lines(pin)} (Err 97) None (Err 0))"
         o = obs["obs"]
         pout = T.scan_lines(o["ok"]) if "ok" in o else None
         paft = T.scan_lines(obs["after"]) if obs["after"] is not None else None
@@ -484,7 +484,7 @@ class Query(Relation):
     coq_case_type = "qcase"
     coq_model = "model_query"
     coq_imports = ["C11_Model"]
-    budget = {"quick": 160, "thorough": 3000}
+    budget = {"quick": 450, "thorough": 5000}
     max_cases_per_shard = 30
     anchors = [
         ("haptools/data/haplotypes.py", "Haplotypes._iter_haps"),
@@ -676,7 +676,34 @@ class Query(Relation):
             return f"query index_haps failed ({obs.get('cls', obs.get('__exc__'))})"
         errs = sorted(set(r.get("cls", "?") for r in obs["res"] if "err" in r))
         vl = bool(file_features(inp["lines"])["variantless"])
-        return f"query read(region, ids) raised={errs} file-has-variantless-haplotype={vl}"
+        diffs = set()
+        contigs = set(e[1] for e in obs["full"].get("ok", []))
+        for q, r in zip(inp["queries"], obs["res"]):
+            if "ok" not in r or "ok" not in obs["full"] or (q["contig"] is not None and q["contig"] not in contigs):
+                continue
+            want = []
+            for e in obs["full"]["ok"]:
+                if q["ids"] is not None and e[4] not in q["ids"]:
+                    continue
+                if q["contig"] is not None:
+                    if e[1] != q["contig"]:
+                        continue
+                    if q["form"] != "c" and e[2] < q["a"]:
+                        continue
+                    if q["form"] == "c:a-b" and e[3] > q["b"]:
+                        continue
+                want.append(e[4])
+            got = [e[4] for e in r["ok"]]
+            if set(got) - set(want):
+                diffs.add("returns-records-outside-the-selection")
+            if set(want) - set(got):
+                diffs.add("misses-selected-records")
+            if sorted(got) == sorted(want):
+                fv = {e[4]: sorted(map(tuple, e[5])) for e in obs["full"]["ok"]}
+                if any(sorted(map(tuple, e[5])) != fv.get(e[4]) for e in r["ok"]):
+                    diffs.add("variants-differ")
+        return (f"query read(region, ids) raised={errs} {' '.join(sorted(diffs)) or 'same-records-as-filter'} "
+                f"file-has-variantless-haplotype={vl}")
 
 
 RELATIONS = [Index(), Query()]
